@@ -128,5 +128,148 @@ def u_reachable_nodes_from():
                              "LM4 (not proved): on a DAG the fix-point of R[u] = {u} + union R[succ] is unique and equals reachability (bounded part compares with BFS)"])
 
 
+# ---------------------------------------------------------------------------------------------
+# stDiGraph.nodes_reachable / nodes_reaching: per-node caches over the SCC condensation
+
+ISNODE = z3.Function("is_node", INT, BOOL)
+MAP = z3.Function("scc_of", INT, INT)
+DESC = z3.Function("condensation_descendant", INT, INT, BOOL)      # DESC(c, d): d is a proper descendant of c in the condensation DAG
+
+
+def spec_forward(n, a):
+    return z3.And(ISNODE(a), z3.Or(DESC(MAP(n), MAP(a)), MAP(a) == MAP(n)))
+
+
+def spec_backward(n, a):
+    return z3.And(ISNODE(a), z3.Or(DESC(MAP(a), MAP(n)), MAP(a) == MAP(n)))
+
+
+class CacheMap:
+    """dict node -> set of nodes, as ghost arrays (dom, val)"""
+    def __init__(self, name):
+        c = core.ctx()
+        self.dom = z3.Const(c.name(name + ".dom"), SETSORT)
+        self.val = z3.Const(c.name(name + ".val"), RELSORT)
+
+    def __contains__(self, k):
+        return core.ctx().decide(self.dom[lift(k)], "cached")
+
+    def __getitem__(self, k):
+        core.ctx().prove("pre:cache-read-only-for-a-cached-node", self.dom[lift(k)], kind="pre")
+        return SetVal(self.val[lift(k)])
+
+    def __setitem__(self, k, v):
+        if not isinstance(v, SetVal):
+            raise Unsupported("cache value")
+        self.dom = z3.Store(self.dom, lift(k), z3.BoolVal(True))
+        self.val = z3.Store(self.val, lift(k), v.term)
+
+    def consistent(self, spec):
+        n, a = z3.Ints("cn ca")
+        return z3.ForAll([n], z3.Implies(self.dom[n], z3.ForAll([a], self.val[n][a] == spec(n, a))))
+
+
+def u_reach_cache(which):
+    fname = "nodes_reachable" if which == "forward" else "nodes_reaching"
+    spec = spec_forward if which == "forward" else spec_backward
+    st = {}
+
+    class Members:
+        def __contains__(self, x):
+            return core.ctx().decide(ISNODE(lift(x)), "is-node")
+
+    class Mapping:
+        def __getitem__(self, x):
+            core.ctx().prove("pre:mapping-read-only-for-a-node", ISNODE(lift(x)), kind="pre")
+            return Sym(MAP(lift(x)))
+
+    class Cond:
+        graph = {"mapping": Mapping()}
+
+    class ByScc:
+        def get(self, c, default=None):
+            a = z3.Int(core.ctx().name("ba"))
+            return SetVal(z3.Lambda([a], z3.And(ISNODE(a), MAP(a) == lift(c))))
+
+    class NX:
+        """A2: networkx descendants / ancestors of the condensation DAG (proper ones: the node itself is excluded, the code adds it)"""
+        @staticmethod
+        def descendants(C, c):
+            d = z3.Int(core.ctx().name("nd"))
+            return SetVal(z3.Lambda([d], DESC(lift(c), d)))
+
+        @staticmethod
+        def ancestors(C, c):
+            d = z3.Int(core.ctx().name("na"))
+            return SetVal(z3.Lambda([d], DESC(d, lift(c))))
+
+    def set_(x=None):
+        if x is None:
+            return SetVal(z3.EmptySet(INT))
+        if isinstance(x, SetVal):
+            return SetVal(x.term)
+        raise Unsupported("set() of %s" % type(x).__name__)
+
+    def to_seq(sv):
+        """enumeration of a finite set (the condensation is finite): every element is listed, only elements are listed"""
+        c = core.ctx()
+        n = c.fresh_const("n_sccs", INT)
+        at, idx = z3.Function(c.name("scc_at"), INT, INT), z3.Function(c.name("scc_index"), INT, INT)
+        j, d = z3.Ints("ej ed")
+        c.assume(n >= 0)
+        c.assume(z3.ForAll([j], z3.Implies(z3.And(j >= 0, j < n), sv.term[at(j)])))
+        c.assume(z3.ForAll([d], z3.Implies(sv.term[d], z3.And(idx(d) >= 0, idx(d) < n, at(idx(d)) == d))))
+        st["at"] = at
+        return SymSeq(n, lambda q: Sym(at(lift(q))), SInt, "sccs")
+
+    def inv(ns, seq, done):
+        a, j = z3.Ints("ia ij")
+        at = st["at"]
+        return {"result=the-nodes-of-the-SCCs-seen-so-far":
+                z3.ForAll([a], ns["result"].term[a] == z3.Exists([j], z3.And(j >= 0, j < lift(done), ISNODE(a), MAP(a) == at(j))))}
+
+    def h(c, f):
+        class Me(Tracked):
+            pass
+        me = Me()
+        me._condensation = Cond()
+        me._nodes_by_scc = ByScc()
+        me.nodes = lambda: Members()
+        fw, bw = CacheMap("reachable_cache"), CacheMap("reaching_cache")
+        me._nodes_reachable_from_node_cache, me._nodes_reaching_node_cache = fw, bw
+        # data-structure invariant on entry: whatever was cached by earlier queries (any number, any order) is right
+        c.assume(fw.consistent(spec_forward))
+        c.assume(bw.consistent(spec_backward))
+        fw0, bw0 = (fw.dom, fw.val), (bw.dom, bw.val)
+        node = c.fresh_const("query_node", INT)
+        a = z3.Int("pa")
+        try:
+            r = f(me, Sym(node))
+        except ValueError:
+            c.prove("xpost:ValueError-only-for-a-non-node", z3.Not(ISNODE(node)), prop=P, kind="xpost")
+            c.prove("xpost:caches-untouched", z3.BoolVal(all(x is y for x, y in zip((fw.dom, fw.val, bw.dom, bw.val), fw0 + bw0))), prop=P, kind="xpost")
+            return
+        if not isinstance(r, SetVal):
+            c.prove("post:returns-a-set", False, prop=P)
+            return
+        c.prove("post:answer=exactly-the-nodes-%s-(warm-or-cold-cache)" % ("reachable-from-the-node" if which == "forward" else "that-reach-the-node"),
+                z3.ForAll([a], r.term[a] == spec(node, a)), prop=P)
+        c.prove("post:both-caches-still-consistent-with-the-graph", z3.And(fw.consistent(spec_forward), bw.consistent(spec_backward)), prop=P)
+        mine, other, other0 = (fw, bw, bw0) if which == "forward" else (bw, fw, fw0)
+        c.prove("post:the-other-direction's-cache-is-untouched", z3.BoolVal(other.dom is other0[0] and other.val is other0[1]), prop=P)
+        c.prove("post:the-answer-is-cached-for-this-node", mine.dom[node], prop=P)
+
+    loops = {0: dict(inv=inv, prop=P, iterable=to_seq, havoc={"result": lambda old: SetVal(z3.Const(core.ctx().name("result"), SETSORT))}, keep=("c",))}
+    return Unit("flowpaths/stdigraph.py", "stDiGraph." + fname, h, globs=dict(utils=UtilsStub, nx=NX, set=set_), loops=loops, props=[P], literals=dict(set=new_set),
+                assumptions=["A2 networkx: nx.descendants / nx.ancestors of the condensation return exactly the proper descendants / ancestors; C.graph['mapping'] maps a node to its SCC; "
+                             "_nodes_by_scc[c] holds exactly the nodes mapped to c (built once in the constructor)",
+                             "LM: a is reachable from n in the digraph iff scc(a) is scc(n) or a descendant of it in the condensation (standard; the bounded part compares with BFS)",
+                             "the entry state is ANY pair of caches consistent with the graph: this is the invariant every earlier query (any number, any order) re-establishes, proved as a postcondition"])
+
+
+class UtilsStub:
+    logger = NoopLogger()
+
+
 def all_units():
-    return [u_reachable_nodes_from()]
+    return [u_reachable_nodes_from(), u_reach_cache("forward"), u_reach_cache("backward")]
